@@ -1,2 +1,3 @@
 pub mod ack;
+pub mod client;
 pub mod server;
